@@ -86,7 +86,7 @@ def runWhole (st : FTy) (d : Decl) : Except RunErr FVal :=
 
 /-- case: {"target":T, "decls":[{"ty":T,"val":V,"maps":[{"from":[..],"to":[..]}]}]} in
     declaration order -/
-def handle (c : Json) : JE Json := do
+def handleMapping (c : Json) : JE Json := do
   let st ← parseTy (← J.field c "target")
   let decls ← (← J.arr c "decls").mapM parseDecl
   let tf := Expected.C15.trie
@@ -122,5 +122,105 @@ def handle (c : Json) : JE Json := do
       ("stream", Json.mkObj [("class", streamClass)]),
       ("streamChunks", J.mkArr (if streamClass == "ok" then chunks.map renderRun else []))])
   else pure <| Json.mkObj base
+
+/-! ## family "static": a node with field mappings and static values, four calling paradigms -/
+
+def renderIn : NodeIn → Json
+  | .val v => renderVal v
+  | .entries l => Json.mkObj [("k", "entries"), ("keys", J.mkArr (l.map (fun x => J.mkStrs x.1)))]
+
+def classOf {α : Type} : Except RunErr α → String
+  | .ok _ => "ok"
+  | .error .request => "err"
+  | .error .panic => "panic"
+
+/-- the `map[string]any` chunks the edges deliver in streaming execution: per predecessor, per
+    chunk of its output, `fieldMap(mappings, allowMapKeyNotFound = true)` + the run-time checkers -/
+def incoming (kf : TakeFacts) (vf : ValidateFacts) (st : FTy) :
+    List (Decl × List FVal) → Except RunErr (List NodeIn)
+  | [] => .ok []
+  | (d, chunks) :: rest =>
+    let rec go : List FVal → Except RunErr (List NodeIn)
+      | [] => .ok []
+      | v :: vs =>
+        match edgesMap kf vf true st [{ pt := d.ty, v := v, ms := d.ms }] with
+        | .error e => .error e
+        | .ok l => match go vs with
+          | .error e => .error e
+          | .ok r => .ok (.entries l :: r)
+    match go chunks with
+    | .error e => .error e
+    | .ok a => match incoming kf vf st rest with
+      | .error e => .error e
+      | .ok b => .ok (a ++ b)
+
+/-- one streaming mode: the chunks the node receives, their concatenation, and whether the stream
+    twin followed by concatenation equals the value twin on the concatenated incoming chunks -/
+def streamMode (kf : TakeFacts) (vf : ValidateFacts) (cf : ChainFacts) (st : FTy)
+    (statics : List (Path × Taken)) (ds : List (Decl × List FVal)) : Json :=
+  match incoming kf vf st ds with
+  | .error e => Json.mkObj [("class", classOf (Except.error e : Except RunErr Unit))]
+  | .ok inc =>
+    let out := assembleStaticStream cf st statics inc
+    let viaValue := chainValue cf.valueAppliesAll (nodeHandlers st statics) (concatIn inc)
+    match out with
+    | .error e => Json.mkObj [("class", classOf (Except.error e : Except RunErr Unit))]
+    | .ok chunks =>
+      Json.mkObj [("class", "ok"), ("chunks", J.mkArr (chunks.map renderIn)),
+        ("concat", renderIn (concatIn chunks)),
+        ("twinsAgree", Json.bool (decide (out.map concatIn = viaValue)))]
+
+/-- case: {"family":"static","target":T,"decls":[{"pred","ty","val","maps"}],
+    "statics":[{"path":[..],"ty":T,"val":V}],"inputChunks":[V..]} — the declaration whose
+    predecessor is "start" delivers `inputChunks` in Collect/Transform, its `val` otherwise -/
+def handleStatic (c : Json) : JE Json := do
+  let st ← parseTy (← J.field c "target")
+  let djs ← J.arr c "decls"
+  let decls ← djs.mapM parseDecl
+  let preds ← djs.mapM (fun j => J.str j "pred")
+  let statics ← (J.arrD c "statics").mapM (fun j => do
+    let p ← (J.arrD j "path").mapM J.asStr
+    let ty ← parseTy (← J.field j "ty")
+    let v ← parseVal (← J.field j "val")
+    pure ((p, some (ty, v)) : Path × Taken))
+  let inputChunks ← (J.arrD c "inputChunks").mapM parseVal
+  let tf := Expected.C15.trie
+  let kf := Expected.C15.take
+  let vf := Expected.C15.validate
+  let cf := Expected.C15.chain
+  let groups := decls.map (fun d => d.ms.map (·.dst))
+  let sgroup := statics.map (·.1)
+  let free : Bool := decide (noOverlap (targets groups ++ sgroup))
+  -- Workflow.compile: the AddInput declarations first, then the static paths of the node as one
+  -- more call of checkAndAddMappedPath
+  let okOverlap : Bool :=
+    if statics.isEmpty then acceptedOverlap tf groups
+    else checkMapped tf (groups ++ [sgroup]) && dupFree groups.flatten
+  let ok : Bool := okOverlap && decls.all (fun d => d.ms.isEmpty || validateEdge vf d.ty st d.ms)
+  let base := [("compile", Json.str (if ok then "accept" else "reject")), ("overlapFree", Json.bool free)]
+  if !ok then return Json.mkObj base
+  -- Invoke: every edge maps the whole predecessor output, the pre-node chain runs in value form
+  let value : Except RunErr NodeIn :=
+    match edgesMap kf vf false st (decls.map (fun d => { pt := d.ty, v := d.v, ms := d.ms })) with
+    | .error e => .error e
+    | .ok l => assembleStatic cf st statics l
+  let single := (decls.map (fun d => (d, [d.v])))
+  let chunked := (decls.zip preds).map (fun (d, p) => (d, if p == "start" then inputChunks else [d.v]))
+  -- the chunks of the workflow input concatenate to the whole input
+  let startVals := (decls.zip preds).filterMap (fun (d, p) => if p == "start" then some d.v else none)
+  let chunksOK : Bool := match startVals, inputChunks with
+    | [v], c :: cs => cs.foldl mergeV c == v
+    | _, _ => true
+  let inv := match value with
+    | .ok (.val v) => Json.mkObj [("class", "ok"), ("val", renderVal v)]
+    | .ok other => Json.mkObj [("class", "ok"), ("val", renderIn other)]
+    | .error e => Json.mkObj [("class", classOf (Except.error e : Except RunErr Unit))]
+  pure <| Json.mkObj (base ++ [("invoke", inv),
+    ("single", streamMode kf vf cf st statics single),
+    ("chunked", streamMode kf vf cf st statics chunked),
+    ("chunksOK", Json.bool chunksOK)])
+
+def handle (c : Json) : JE Json :=
+  if J.strD c "family" "" == "static" then handleStatic c else handleMapping c
 
 end EinoV.Oracle.C15
